@@ -17,7 +17,7 @@ use std::marker::PhantomData;
 #[derive(Clone, Debug)]
 pub enum AOp<V> {
     /// mode 0 reserve_items, 1 reserve_regions, 2 merge, 3 unsized growth
-    Cfg { mode: u8, nsrc: u8, rform: usize, n_log: u8, vseed: u64, max_len: usize },
+    Cfg { mode: u8, nsrc: u8, rform: usize, n_log: u8, vseed: u64, max_len: usize, pform: usize },
     Prior(V),
     Batch(V),
 }
@@ -66,10 +66,10 @@ where
         let mut ops = Vec::new();
         if mode == 3 {
             let n_log = if thorough { 6 + rng.below(9) as u8 } else { 6 + rng.below(6) as u8 };
-            ops.push(AOp::Cfg { mode, nsrc: 0, rform: 0, n_log, vseed: rng.next(), max_len: 1 + rng.below(4) });
+            ops.push(AOp::Cfg { mode, nsrc: 0, rform: 0, n_log, vseed: rng.next(), max_len: 1 + rng.below(4), pform: 0 });
             return ops;
         }
-        ops.push(AOp::Cfg { mode, nsrc: 1 + rng.below(3) as u8, rform: rng.below(caps.nrforms.max(1)), n_log: 0, vseed: 0, max_len: 0 });
+        ops.push(AOp::Cfg { mode, nsrc: 1 + rng.below(3) as u8, rform: rng.below(caps.nrforms.max(1)), n_log: 0, vseed: 0, max_len: 0, pform: if rng.coin() { 0 } else { rng.below(caps.nforms.max(1)) } });
         // batch shapes: empty items, many small, few large, skewed variants come from the knobs
         let np = if rng.coin() { 0 } else { rng.below(12) };
         let nb = match rng.below(4) {
@@ -95,12 +95,13 @@ where
         let mut dig = Digest::default();
         let caps = T::caps();
         let fail = |o: &str, d: String| Some((format!("C17/allocs/{o}"), 0usize, d));
-        let (mut mode, mut nsrc, mut rform, mut n_log, mut vseed, mut max_len) = (2u8, 1u8, 0usize, 6u8, 0u64, 2usize);
+        let (mut mode, mut nsrc, mut rform, mut n_log, mut vseed, mut max_len, mut pform) = (2u8, 1u8, 0usize, 6u8, 0u64, 2usize, 0usize);
         let mut prior: Vec<&T::Val> = Vec::new();
         let mut batch: Vec<&T::Val> = Vec::new();
         for op in ops {
             match op {
-                AOp::Cfg { mode: m, nsrc: s, rform: r, n_log: n, vseed: v, max_len: ml } => {
+                AOp::Cfg { mode: m, nsrc: s, rform: r, n_log: n, vseed: v, max_len: ml, pform: pf } => {
+                    pform = *pf;
                     mode = *m;
                     nsrc = *s;
                     rform = *r;
@@ -215,10 +216,14 @@ where
             }
             let before = tgt.heap();
             let s0 = alloc::snap(1);
+            let pf = pform % caps.nforms.max(1);
             for v in &batch {
                 alloc::with_owner(1, || {
-                    let _ = tgt.push(v, 0);
+                    let _ = tgt.push(v, pf);
                 });
+            }
+            if pf != 0 {
+                out.hit("presized_push_noncanonical_form");
             }
             let s1 = alloc::snap(1);
             let after = tgt.heap();
@@ -238,7 +243,9 @@ where
                     );
                 }
             }
-            if caps.plain {
+            // the zero-call rule is checked with the by-reference form only: other forms build their
+            // argument (and may drop an owned one) inside the measured region
+            if caps.plain && pf == 0 {
                 let calls = s1.calls() - s0.calls();
                 if calls != 0 {
                     return fail("allocator-called", format!("after {how} for {} plain-data items ({} prior), pushing exactly those items made {calls} allocator calls", batch.len(), prior.len()));
@@ -260,7 +267,7 @@ where
 
     fn op_json(&self, op: &Self::Op) -> J {
         match op {
-            AOp::Cfg { mode, nsrc, rform, n_log, vseed, max_len } => json!({"cfg": {"mode": mode, "nsrc": nsrc, "rform": rform, "n_log": n_log, "vseed": vseed, "max_len": max_len}}),
+            AOp::Cfg { mode, nsrc, rform, n_log, vseed, max_len, pform } => json!({"cfg": {"mode": mode, "nsrc": nsrc, "rform": rform, "n_log": n_log, "vseed": vseed, "max_len": max_len, "pform": pform}}),
             AOp::Prior(v) => json!({ "prior": v.to_json() }),
             AOp::Batch(v) => json!({ "batch": v.to_json() }),
         }
@@ -268,7 +275,7 @@ where
     fn op_from_json(&self, j: &J) -> Option<Self::Op> {
         if let Some(c) = j.get("cfg") {
             let u = |k: &str| c.get(k).and_then(J::as_u64);
-            return Some(AOp::Cfg { mode: u("mode")? as u8, nsrc: u("nsrc")? as u8, rform: u("rform")? as usize, n_log: u("n_log")? as u8, vseed: u("vseed")?, max_len: u("max_len")? as usize });
+            return Some(AOp::Cfg { mode: u("mode")? as u8, nsrc: u("nsrc")? as u8, rform: u("rform")? as usize, n_log: u("n_log")? as u8, vseed: u("vseed")?, max_len: u("max_len")? as usize, pform: u("pform").unwrap_or(0) as usize });
         }
         if let Some(v) = j.get("prior") {
             return Some(AOp::Prior(T::Val::from_json(v)?));
@@ -277,16 +284,19 @@ where
     }
     fn shrink(&self, op: &Self::Op) -> Vec<Self::Op> {
         match op {
-            AOp::Cfg { mode, nsrc, rform, n_log, vseed, max_len } => {
+            AOp::Cfg { mode, nsrc, rform, n_log, vseed, max_len, pform } => {
                 let mut v = Vec::new();
                 if *nsrc > 1 {
-                    v.push(AOp::Cfg { mode: *mode, nsrc: 1, rform: *rform, n_log: *n_log, vseed: *vseed, max_len: *max_len });
+                    v.push(AOp::Cfg { mode: *mode, nsrc: 1, rform: *rform, n_log: *n_log, vseed: *vseed, max_len: *max_len, pform: *pform });
                 }
                 if *n_log > 6 {
-                    v.push(AOp::Cfg { mode: *mode, nsrc: *nsrc, rform: *rform, n_log: n_log - 1, vseed: *vseed, max_len: *max_len });
+                    v.push(AOp::Cfg { mode: *mode, nsrc: *nsrc, rform: *rform, n_log: n_log - 1, vseed: *vseed, max_len: *max_len, pform: *pform });
                 }
                 if *rform > 0 {
-                    v.push(AOp::Cfg { mode: *mode, nsrc: *nsrc, rform: 0, n_log: *n_log, vseed: *vseed, max_len: *max_len });
+                    v.push(AOp::Cfg { mode: *mode, nsrc: *nsrc, rform: 0, n_log: *n_log, vseed: *vseed, max_len: *max_len, pform: *pform });
+                }
+                if *pform > 0 {
+                    v.push(AOp::Cfg { mode: *mode, nsrc: *nsrc, rform: *rform, n_log: *n_log, vseed: *vseed, max_len: *max_len, pform: 0 });
                 }
                 v
             }
